@@ -20,3 +20,9 @@ pub use companion::BasicDataCompanion;
 pub use basic::NoOpCompanion;
 
 pub use basic::*;
+
+// Verification hooks: compiled only with `--cfg garnish_core_verif`.
+#[cfg(garnish_core_verif)]
+mod verif;
+#[cfg(garnish_core_verif)]
+pub use storage::{ReallocationStrategy, StorageBlock, StorageSettings};
